@@ -49,7 +49,7 @@ def cases(tier, seed):
                  nfields=rng.randint(1, 3), base_blocks=(1, 2), payload=["random", "trace"][k % 2])
         if k % 4 == 0:
             g["origin"] = [0.0, 0.0, 0.0]
-        cs.append({"gen": g, "ratio4": True, "sel_seed": seed * 71 + 4000 + k, "npts": 40 if tier == "quick" else 90,
+        cs.append({"gen": g, "ratio4": "coarse" if k % 3 == 2 else True, "sel_seed": seed * 71 + 4000 + k, "npts": 40 if tier == "quick" else 90,
                    "fmt": dict(ref_ratio_extra=rng.choice([0, 0, 1]), floatfmt=rng.choice(["repr", "17g"]))})
     # scale: a box of more than a million cells (queries anywhere inside it, its low faces included)
     for k in range(1 if tier == "quick" else 4):
@@ -187,8 +187,11 @@ def run_case(case, work, rec):
                 rec.count("level_gt0")
             if getattr(m, "ratios", None):
                 rec.count("queries_ratio4_plotfile")
-                if lv == finest:
+                rec.seen("ratio_lines", " ".join(str(v) for v in m.ratios))
+                if lv >= 1 and m.ratios[lv - 1] == 4:
                     rec.count("queries_on_the_ratio4_level")
+                elif lv >= 2:
+                    rec.count("queries_above_the_ratio4_level")
             if origin_nz:
                 rec.count("nonzero_origin")
             if not single:
